@@ -39,7 +39,8 @@ func genC13LongCase() *rapid.Generator[QCase] {
 		// a few messages are kept out of the mass ack: leased, dead-lettered or canceled
 		nk := rapid.IntRange(1, 4).Draw(t, "nkeep")
 		keep := map[int]string{}
-		for len(keep) < nk {
+		for i := 0; i < nk; i++ {
+			// a fixed number of draws (a shrunk case may name one index several times: fewer are kept then)
 			k := rapid.IntRange(0, n-1).Draw(t, "keep")
 			keep[k] = rapid.SampledFrom([]string{"leased", "dead", "canceled"}).Draw(t, "keep_as")
 		}
